@@ -75,9 +75,9 @@ Proof.
   intros (H1 & H2 & H3 & H4) Hfit. unfold seg_append_data, seg_update_tot_len.
   destruct (cadd two32 _ _ _) as [dl| | |]; cbn [obind]; try discriminate.
   cbn [ts_ip ts_payload].
-  unfold cadd, two16, wrap16.
+  unfold wrap16.
   rewrite (N.mod_small (len b)) by lia.
-  destruct (ip_tot_len (ts_ip s) + len b <? 65536) eqn:E; cbn [obind]; [|discriminate].
+  rewrite (N.mod_small (ip_tot_len (ts_ip s) + len b)) by lia.
   intros E'; inversion E'; subst; clear E'.
   unfold seg_inv. cbn [ts_raw ts_ip ts_payload ts_eth ts_with_ip].
   repeat split; try assumption.
